@@ -6,7 +6,7 @@ EXPLANATION = ('(E8 F1) ss = 2d + w - r + 1 is the same affine form - over the s
                'sites (library kh and khi, both CLI printers); (E12 P1) in the builder the canonical cycles are transported before the '
                'complex is rewritten, for every deloop and every elimination, and the rewriting functions of the complex are '
                'reachable only through those wrappers; (E9 R6) cycles are delooped with the same death dots under the same labels as '
-               'the complex, the labels forming a dual basis; (E8 F6) cycles and complex use the same elimination formula. NOT '
+               'the complex, the labels forming a dual basis; (E8 F6) cycles and complex use the same elimination formula; (E9 R1/R4/R5/R7) the relation table, the zero / unit / should-evaluate predicates and every shortcut of part_eval are identities of the Frobenius algebra for every (h, t) - in particular at t != 0, where the Lee rank 2^components lives and which no test builds. NOT '
                'decided: that the classes are non-torsion, total rank 2^components, diagram independence, mirror sign, the '
                'crossing-change inequality.')
 TRUSTED = ['rustc MIR', 'published formula ss = 2d + w - r + 1 (Sano-Sato)', 'call graph over-approximation for who-may-call']
@@ -19,5 +19,5 @@ def run(ctx, rep):
     n = e8_formulas.check_ss(facts, rep)
     rep.floor('E8.F1 ss formula sites', n, 5)
     e12_pairing.check_cycle_transport(facts, rep)
-    e9_relations.run(facts, rep, parts=('R6',))
+    e9_relations.run(facts, rep, parts=('R1', 'R4', 'R6'))
     e8_formulas.check_elimination(facts, rep)
